@@ -247,6 +247,7 @@ func cmdCheck(args []string) int {
 	bySolver := map[string]int{}
 	trusted := map[string]bool{}
 	var fnsUnder []string
+	realSet := map[string]bool{}
 	var samples []interface{}
 	var knownLines, violLines []string
 	seenKF := map[string]bool{}
@@ -254,6 +255,9 @@ func cmdCheck(args []string) int {
 	for _, r := range results {
 		h := r.Harness
 		fnsUnder = append(fnsUnder, h.Name+targetSuffix(h))
+		for _, f := range r.RealFns {
+			realSet[f] = true
+		}
 		for _, t := range r.Trusted {
 			trusted[t] = true
 		}
@@ -417,6 +421,7 @@ func cmdCheck(args []string) int {
 				"checker_cmd":               "govc check -prop " + *prop + " -tier " + *tier + " (go/ssa weakest-precondition style symbolic execution of /repo working tree with -tags verif; z3 5.1.0 | z3 4.8.12 | cvc5 1.0 portfolio)",
 				"trusted_base":              tb,
 				"functions_under_contract":  fnsUnder,
+				"real_functions_executed":   sortedKeys(realSet),
 				"harnesses":                 len(hs),
 				"vacuity_covers":            nCover,
 				"known_finding_obligations": nKnown,
@@ -530,4 +535,13 @@ func init() {
 		}
 		return 0
 	}
+}
+
+func sortedKeys(m map[string]bool) []string {
+	out := make([]string, 0, len(m))
+	for k := range m {
+		out = append(out, k)
+	}
+	sort.Strings(out)
+	return out
 }
